@@ -15,7 +15,7 @@ number with another type, and other numbers with the claimed type); both directi
 followed by a host plan of data-stage / status-stage transactions (IN first, OUT data then IN, OUT status first,
 repeated INs, bulk IN to EP1 with ACK in the middle, SOF).  The rest are supported requests that move the device
 state (SET_ADDRESS, SET_CONFIGURATION, GET_DESCRIPTOR, GET_STATUS, GET_CONFIGURATION, CLEAR_FEATURE(ENDPOINT_HALT),
-the claimed vendor request), completed legally or (15 %) abandoned by the host part-way, so that the unsupported
+the claimed vendor request), completed legally or (in 60 % of the sessions, ~20 % of them) abandoned by the host part-way, so that the unsupported
 request meets the handlers in every state.
 
 Monitors: every packet the device transmits (wire capture of the host model), attributed to the host transaction
@@ -417,7 +417,7 @@ def run_case(rng, tier, res):
 
     def begin(t, judged):
         cur = {"judged": judged, "setup": t["setup"], "cls": t.get("cls"), "name": t.get("name"), "ctx": st["std_stale"] or ("abandoned" if st["ever_abandoned"] else None),
-               "hist": list(hist[-6:]), "stalled": False, "host_acks": 0}
+               "hist": list(hist[-6:]), "stalled": False, "host_acks": 0, "stale0": st["std_stale"]}
         hist.append((t.get("cls") or t.get("name"), t["setup"].hex(), t.get("abandon")))
         return cur
 
@@ -565,7 +565,7 @@ def run_case(rng, tier, res):
         sweep()
         # classifier bookkeeping: what this transfer leaves behind in the standard handler
         typ = (s[0] >> 5) & 3
-        if typ == 0 and cur["ctx"] is None and st["std_stale"] is None:
+        if typ == 0 and cur["stale0"] is None and st["std_stale"] is None:
             if t["cls"].startswith("clear_feature"):
                 st["std_stale"] = "clear_feature"
             elif not cur["stalled"]:
@@ -625,7 +625,7 @@ def run_case(rng, tier, res):
             elif abandon is not None or st["std_stale"] is not None:
                 st["std_stale"] = "abandoned" if abandon is not None else st["std_stale"]
                 st["ever_abandoned"] = st["ever_abandoned"] or abandon is not None
-            else:
+            elif not st["ever_abandoned"]:
                 st["std_stale"] = "failed"      # a fresh handler failed a supported request: not a known pattern
 
     def driver():
